@@ -400,26 +400,44 @@ def grid_extent(rep, prog):
         rep.ok("C06.grid-extent", prog, fn, ud[0], "grid_.update_dimensions(n, global min xyz, global max xyz) precedes the registration loop")
     else:
         rep.violation("C06.grid-extent", prog, fn, ud[0], "grid extent arguments %s" % ",".join(a.replace("global_", "") for a in args), "the grid must be re-dimensioned with (global_min_x_, global_min_y_, global_min_z_, global_max_x_, global_max_y_, global_max_z_) before the faces are registered; found (%s)" % ", ".join(args))
-    # the global extrema are the min / max over all padded boxes
+    # the global extrema are the min / max over all padded boxes: every global_m??_?_ is a running extremum (any idiom) of the
+    # local that is stored in the matching slot of the face box, directly or through a local accumulator copied into it afterwards
+    from .. import lints
     up = prog.fn("contact_model_abstract::update_face_aabbs")
-    ui = prog.index(up)
-    upd = {}
+    box = None
+    for n in walk(up["body"]):
+        if n.get("k") == "CXXMemberCallExpr" and n.get("callee", "").split("::")[-1] in ("insert", "push_back", "emplace_back") and "face_aabb_lst_" in render(call_obj(n)):
+            il = [x for x in walk(n) if x.get("k") == "InitListExpr" and len([c_ for c_ in x.get("c", []) if isinstance(c_, dict)]) == 6]
+            if il:
+                box = [strip(c_) for c_ in il[-1]["c"] if isinstance(c_, dict)]
+    slot_of = {}
+    if box:
+        for k_, b_ in enumerate(box):
+            if b_.get("k") == "DeclRefExpr":
+                slot_of[b_["ref"]["did"]] = k_
+    run_ext = {}      # key of the accumulator (field name or local did) -> (kind, slot of the coordinate)
+    for n, tgt, val, kind in lints.extremum_updates(up):
+        t_, v_ = strip(tgt), strip(val)
+        if v_.get("k") != "DeclRefExpr" or v_["ref"].get("did") not in slot_of:
+            continue
+        key = t_["ref"]["name"] if t_.get("k") == "MemberExpr" else (t_["ref"].get("did") if t_.get("k") == "DeclRefExpr" else None)
+        if key is not None:
+            run_ext[key] = (kind, slot_of[v_["ref"]["did"]])
+    # globals assigned from a local accumulator (possibly minus the padding, handled by C06.padding / C14.grid)
     for n in walk(up["body"]):
         if n.get("k") == "BinaryOperator" and n.get("op") == "=":
-            l, r = strip(n["c"][0]), strip(n["c"][1])
-            if l.get("k") == "MemberExpr" and l["ref"]["name"].startswith("global_m") and r.get("k") == "DeclRefExpr":
-                for cond, pol in ui.guards(n):
-                    c = strip(cond)
-                    if c.get("k") == "BinaryOperator" and pol:
-                        cl, cr_ = strip(c["c"][0]), strip(c["c"][1])
-                        if cl.get("k") == "DeclRefExpr" and cl["ref"]["did"] == r["ref"]["did"] and cr_.get("k") == "MemberExpr" and cr_["ref"]["name"] == l["ref"]["name"]:
-                            upd[l["ref"]["name"]] = (c["op"], r["ref"]["name"])
+            l = strip(n["c"][0])
+            if l.get("k") == "MemberExpr" and l["ref"]["name"].startswith("global_m"):
+                for x in walk(n["c"][1]):
+                    if x.get("k") == "DeclRefExpr" and x["ref"].get("did") in run_ext and l["ref"]["name"] not in run_ext:
+                        run_ext[l["ref"]["name"]] = run_ext[x["ref"]["did"]]
     for name in want:
         kind, ax = name.split("_")[1], name.split("_")[2]
-        got = upd.get(name)
-        if got and got[0] == ("<" if kind == "min" else ">") and got[1] == "face_%s_%s" % (kind, ax):
+        got = run_ext.get(name)
+        if got and got[0] == kind and got[1] == "xyz".index(ax) + (0 if kind == "min" else 3):
             continue
-        rep.violation("C06.grid-extent", prog, up, None, "%s is not the running %s of the padded boxes" % (name, kind), "update_face_aabbs must update %s with 'if(face_%s_%s %s %s) %s = face_%s_%s' (found %s)" % (name, kind, ax, "<" if kind == "min" else ">", name, name, kind, ax, got))
+        rep.violation("C06.grid-extent", prog, up, None, "%s is not the running %s of the padded boxes" % (name, kind),
+                      "update_face_aabbs must make %s the running %s, over all faces, of the value stored in slot %d of the face box (found %s)" % (name, kind, "xyz".index(ax) + (0 if kind == "min" else 3), got))
 
 
 def pipeline(rep, prog, cm):
